@@ -61,13 +61,14 @@ def main(argv=None):
     if a.tier == "quick":
         code, ctx = run_property(a.property, a.tier)
         return code
-    # thorough = quick rules + the slice of the mutation / twin corpus that exercises this
-    # property's rules (each mutant must be reported by the named rule, each twin must be silent)
+    # thorough = quick rules + the slice of the mutation / twin corpus that exercises this property's rules + every confirmed seeded change
+    # of this property (must be reported by one of its rules) + every behaviour-preserving refactoring patch (this property's check must stay
+    # silent), all as in-memory overlays of the CURRENT tree; an entry that no longer applies to the tree is counted not-applicable
     code, ctx = run_property(a.property, a.tier, finish=False)
     if ctx is None:
         return code
     from .selftest import runner
-    entries, results = runner.run_for_property(a.property)
+    entries, results = runner.run_for_property_full(a.property)
     fails = runner.summarize(entries, results, verbose=False)
     ctx.notes.append({"selftest": {"entries": len(entries), "ok": sum(r[1] == "ok" for r in results),
                                    "not_applicable": sum(r[1] == "n/a" for r in results), "failed": len(fails),
